@@ -91,6 +91,17 @@ Section Glue.
   Definition ml_sink_matched (c : core) (s : bytes) (rs re : nat) : outcome :=
     if Nat.leb re rs then OK false c else sink_matched cfg reply_of true c s rs re.
 
+  (* the `while let Some(line) = stepper.next_match(..)` loop of sink_matched_inverted *)
+  Fixpoint ml_inv_loop (last : option (nat * nat)) (fuel : nat) (c : core) (s : bytes) (p re : nat) : ml_outcome :=
+    match fuel with
+    | 0 => MFUEL
+    | S fuel' =>
+      match line_step (lt_byte (c_lt cfg)) s p re with
+      | None => MOK true {| ml_core := c; ml_last := last |}
+      | Some (a, b) => ml_lift (ml_sink_matched c s a b) last (fun c => ml_inv_loop last fuel' c s b re)
+      end
+    end.
+
   Definition ml_sink_matched_inverted (m : ml) (s : bytes) : ml_outcome :=
     let c := ml_core m in
     let '(rs, re, c) :=
@@ -101,17 +112,7 @@ Section Glue.
         (pos c, ls, ml_advance c s ls le)
       end in
     if Nat.leb re rs then MOK true {| ml_core := c; ml_last := ml_last m |} else
-    ml_lift (ml_sink_context c s rs) (ml_last m) (fun c =>
-    let fix loop (fuel : nat) (c : core) (p : nat) : ml_outcome :=
-      match fuel with
-      | 0 => MFUEL
-      | S fuel' =>
-        match line_step (lt_byte (c_lt cfg)) s p re with
-        | None => MOK true {| ml_core := c; ml_last := ml_last m |}
-        | Some (a, b) => ml_lift (ml_sink_matched c s a b) (ml_last m) (fun c => loop fuel' c b)
-        end
-      end in
-    loop (S (length s)) c rs).
+    ml_lift (ml_sink_context c s rs) (ml_last m) (fun c => ml_inv_loop (ml_last m) (S (length s)) c s rs re).
 
   (* MultiLine::sink() *)
   Definition ml_sink (m : ml) (s : bytes) : ml_outcome :=
